@@ -15,7 +15,7 @@ fn main() {
     let (mut checked, mut bad) = (0, 0);
     let masks: [&[libc::c_int]; 4] = [&[], &[libc::SIGPIPE], &[libc::SIGTERM, libc::SIGUSR1], &[libc::SIGPIPE, libc::SIGINT, libc::SIGHUP, libc::SIGCHLD]];
     for (mi, mask) in masks.iter().enumerate() {
-        for disp in 0..3 {
+        for disp in [1, 0, 2] {     // default first: a disposition looked up once and remembered must not survive the parent changing it
             unsafe {
                 libc::signal(libc::SIGPIPE, match disp { 0 => libc::SIG_IGN, 1 => libc::SIG_DFL, _ => handler as *const () as usize });
                 let mut set: libc::sigset_t = std::mem::zeroed();
